@@ -66,6 +66,16 @@ func scriptList() []spec {
 			add(spec{Script: "size-bound", Kind: kind, Workers: 1, MaxSize: m})
 		}
 	}
+	// far-future / far-past / other-representation instants mixed with due elements in one heap (all workers held at gates)
+	for _, kind := range []string{kQueue, kExec, kTask} {
+		for _, w := range []int{1, 1, 2} {
+			for _, fl := range []int{0, fIgnore} {
+				for perm := 0; perm < 3; perm++ {
+					out = append(out, spec{Script: "far-mix", Kind: kind, Workers: w, Flags: fl, Perm: perm + 3*len(out)%7, Index: len(out)})
+				}
+			}
+		}
+	}
 	// full bounded queue: re-schedule a pending identifier (must replace, never drop) / add after a Cancel freed a slot
 	for _, far := range []bool{true, false} {
 		for _, m := range []int{1, 2, 3} {
@@ -240,6 +250,51 @@ func runScript(sp spec) *run {
 			r.open(g)
 		}
 
+	case "far-mix":
+		var gs []*item
+		for i := 0; i < sp.Workers; i++ {
+			g := r.appendItem(100+i, -1000, true)
+			r.schedule(g)
+			r.waitStarted(g)
+			gs = append(gs, g)
+		}
+		type el struct {
+			when string
+			off  int64
+		}
+		els := []el{{"", -2000}, {"", -1000}, {"", -3000}, {"utc", -500}, {"zone", -500}, {"nomono", -500}, {"nomono", -2500}}
+		for _, w := range farFutureWhens {
+			els = append(els, el{w, 0})
+		}
+		for _, w := range farPastWhens {
+			els = append(els, el{w, 0})
+		}
+		rng := rand.New(rand.NewSource(int64(sp.Perm)*7919 + 1))
+		rng.Shuffle(len(els), func(i, j int) { els[i], els[j] = els[j], els[i] }) // far elements are added before and after the due ones
+		base := time.Now()
+		for i, e := range els {
+			it := r.appendItem(i+1, e.off, false)
+			it.when, it.abs, it.hasAbs = e.when, instant(e.when, base, e.off), true
+			r.schedule(it)
+		}
+		o := r.settle(nil)
+		if o.inCallback == sp.Workers && r.size() == len(els) { // nothing was popped: every element sits in the heap
+			for _, it := range r.allItems()[sp.Workers:] {
+				if it.accepted.Load() && it.starts.Load() == 0 {
+					r.together = append(r.together, it)
+				}
+			}
+			r.patterns["gated:far-mix-in-heap-together"] = true
+		}
+		for _, g := range gs {
+			r.open(g)
+		}
+		if r.waitDue() {
+			r.flags |= fIgnore
+			r.flushForced = true
+			r.patterns["far-mix-stalled-flush-forced"] = true
+		}
+
 	case "bounded-replace", "bounded-add-after-cancel":
 		// every worker is held at a gate, so nothing is polled and the heap really holds what was added
 		var gs []*item
@@ -372,6 +427,16 @@ func genSpec(rng *rand.Rand, idx int) spec {
 			switch p := rng.Intn(100); {
 			case p < 55 || j == 0:
 				op = opSpec{T: "add", Item: sp.NItems, ID: 1 + rng.Intn(ids), OffUs: int64(rng.Intn(45001)) - 5000, Gated: rng.Intn(4) == 0}
+				switch q := rng.Intn(100); {
+				case q < 5:
+					op.When = farPastWhens[rng.Intn(len(farPastWhens))]
+				case q < 10:
+					op.When = reprWhens[rng.Intn(2)] // UTC / fixed zone keep the monotonic reading
+				case q < 13 && op.OffUs < 0:
+					op.When = "nomono" // wall-clock only representation: used for elements that are already due
+				case q < 20 && sp.Flags&fIgnore != 0:
+					op.When = farFutureWhens[rng.Intn(len(farFutureWhens))] // handed out by Shutdown(IgnorePendingTimeouts) only
+				}
 				if op.Gated {
 					gatedItems = append(gatedItems, op.Item)
 				}
@@ -475,6 +540,7 @@ func runRandom(sp spec) *run {
 		for _, op := range ops {
 			if op.T == "add" {
 				r.items[op.Item] = r.newItem(op.Item, op.ID, op.OffUs, op.Gated)
+				r.items[op.Item].when = op.When
 			}
 		}
 	}
